@@ -115,7 +115,7 @@ impl Modeled for Skipper {
 	}
 }
 
-#[derive(Encode, Decode, DecodeWithMemTracking, PartialEq, Debug, Clone)]
+#[derive(Encode, Decode, DecodeWithMemTracking, MaxEncodedLen, PartialEq, Debug, Clone)]
 pub struct CompactFields {
 	#[codec(compact)]
 	pub a: u32,
@@ -350,5 +350,87 @@ impl<T: Modeled, U: Modeled> Modeled for Generic<T, U> {
 	}
 	fn min_len() -> usize {
 		T::min_len() + 1
+	}
+}
+
+/// An enum deriving `MaxEncodedLen` with compact fields, a skipped variant and a skipped field.
+#[derive(Encode, Decode, DecodeWithMemTracking, MaxEncodedLen, PartialEq, Debug, Clone)]
+pub enum MelEnum {
+	A,
+	B(#[codec(compact)] u128, u8),
+	#[codec(skip)]
+	S(u64),
+	C {
+		x: Option<u16>,
+		#[codec(skip)]
+		y: u32,
+	},
+}
+impl Modeled for MelEnum {
+	fn ty(d: usize) -> String {
+		"enum 3 0 tup 0 1 tup 2 c 16 u8 2 tup 1 opt u16".into()
+	}
+	fn val(&self, out: &mut String, c: bool) {
+		match self {
+			MelEnum::A => out.push_str("V 0 L 0"),
+			MelEnum::B(a, b) => write!(out, "V 1 L 2 n{} n{}", a, b).unwrap(),
+			MelEnum::S(_) => out.push('K'),
+			MelEnum::C { x, .. } => {
+				out.push_str("V 2 L 1 ");
+				x.val(out, c)
+			},
+		}
+	}
+	fn gen(g: &mut G) -> Self {
+		match g.rng.below(3) {
+			0 => MelEnum::A,
+			1 => MelEnum::B(u128::gen(g), u8::gen(g)),
+			_ => MelEnum::C { x: Option::gen(g), y: 0 },
+		}
+	}
+	fn min_len() -> usize {
+		1
+	}
+}
+
+/// Generic struct with a compact field of the type parameter.
+#[derive(Encode, Decode, DecodeWithMemTracking, MaxEncodedLen, PartialEq, Debug, Clone)]
+pub struct MelGen<T: parity_scale_codec::HasCompact> {
+	#[codec(compact)]
+	pub a: T,
+	pub b: [T; 2],
+}
+pub trait CompactWidth {
+	const W: usize;
+}
+impl CompactWidth for u8 {
+	const W: usize = 1;
+}
+impl CompactWidth for u16 {
+	const W: usize = 2;
+}
+impl CompactWidth for u32 {
+	const W: usize = 4;
+}
+impl CompactWidth for u64 {
+	const W: usize = 8;
+}
+impl<T: Modeled + parity_scale_codec::HasCompact + CompactWidth> Modeled for MelGen<T> {
+	fn ty(d: usize) -> String {
+		format!("tup 2 c {} arr 2 {}", T::W, T::ty(d))
+	}
+	fn val(&self, out: &mut String, c: bool) {
+		out.push_str("L 2 ");
+		self.a.val(out, c);
+		out.push_str(" L 2 ");
+		self.b[0].val(out, c);
+		out.push(' ');
+		self.b[1].val(out, c);
+	}
+	fn gen(g: &mut G) -> Self {
+		MelGen { a: T::gen(g), b: [T::gen(g), T::gen(g)] }
+	}
+	fn min_len() -> usize {
+		1 + 2 * T::min_len()
 	}
 }
